@@ -91,6 +91,9 @@ def r10_1(ctx, m):
     n_idx = 0
     # names bound (anywhere in the loop) to an entry of the index dictionary
     index_aliases = {norm(st.targets[0]) for st in walk_stmts(m.pass2.body) if isinstance(st, ast.Assign) and isinstance(st.targets[0], ast.Name) and isinstance(st.value, ast.Subscript) and norm(st.value).startswith(idx_dict + "[")}
+    grown = [c_ for c_ in ast.walk(m.pass2) if isinstance(c_, ast.Call) and isinstance(c_.func, ast.Attribute) and c_.func.attr in ("append", "extend", "insert") and (norm(c_.func.value).startswith(idx_dict + "[") or norm(c_.func.value) in index_aliases)]
+    if grown:
+        raise AnalysisError("R10.1", f.where(grown[0]), f"the index entry is filled with `{norm(grown[0])[:50]}` (slots that come into being by append, not [first, last] assigned in place): not read by this rule")
     for p in m.p2_paths:
         if p.term == "raise":
             continue
@@ -345,6 +348,14 @@ def r10_3(ctx, m):
         dv = norm(call.args[didx])
         d = [st for st in walk_stmts(cf.node.body) if isinstance(st, ast.Assign) and norm(st.targets[0]) == dv]
         ok = len(d) == 1 and norm(d[0].value).replace(" ", "") == "defaultdict(lambda:[None,None])"
+        if not ok:
+            # positive evidence of a wrong start value: a fresh entry whose slots are not None (`[0, 0]`), or one list object
+            # shared by all contigs; any other container (an empty list filled with append, a small class) is not read here
+            txt_ = norm(d[0].value).replace(" ", "") if len(d) == 1 else ""
+            wrong = len(d) == 1 and isinstance(d[0].value, ast.Call) and norm(d[0].value.func).endswith("defaultdict") and d[0].value.args and isinstance(d[0].value.args[0], ast.Lambda) and isinstance(d[0].value.args[0].body, (ast.List, ast.Tuple)) and any(not (isinstance(e_, ast.Constant) and e_.value is None) for e_ in d[0].value.args[0].body.elts)
+            shared_obj = len(d) == 1 and isinstance(d[0].value, ast.Call) and norm(d[0].value.func).endswith("defaultdict") and d[0].value.args and isinstance(d[0].value.args[0], ast.Lambda) and isinstance(d[0].value.args[0].body, ast.Name)  # one module-level list handed to every contig
+            if not wrong and not shared_obj and "fromkeys" not in txt_:
+                raise AnalysisError("R10.3", cf.where(), f"the index entries are created by `{txt_[:60]}`: how a contig's first / last slot starts out is not read by this rule")
         ctx.check(ok, "R10.3", cf.where(), "index entries start as [None, None] (fresh list per contig)", key_of(cf, f"index-default:{[norm(x.value) for x in d]}"))
 
 
@@ -389,6 +400,9 @@ def r10_4(ctx, m):
                 n += 1
                 if norm(a) != out_param:
                     bad = (p, f"the handle `{wv}` whose positions are indexed is opened on `{norm(a)}`, not on the output path `{out_param}`")
+            if tgt == wv and isinstance(v, ast.Call) and repo.resolve_call(cf, v) is not None and repo.resolve_call(cf, v).name == "__init__" and any(isinstance(a_, ast.Name) and a_.id == wv for a_ in v.args):
+                cls_ = repo.resolve_call(cf, v).cls
+                bad = (p, f"the output handle is wrapped in `{cls_}` before it is handed to the sort function: the positions stored in the index are what `{cls_}.tell()` computes (bytes handed over plus bytes waiting), not positions of the file — for BGZF output a byte count is not a virtual offset once the output spans more than one block")
             env[tgt] = v
         if bad:
             break
